@@ -27,6 +27,8 @@ class IntCells:
             n = norm_local(t[2])
             if n in self.names:
                 return n
+            if n in ("__RVAL__", "__EGrval__") and "__EGrval__" in self.names:
+                return "__EGrval__"   # EG_RETURN / EGcall temporaries share the temp slot (never live together)
         return None
 
     def values(self, st, rhs):
@@ -83,6 +85,8 @@ class IntCells:
 
     def declare(self, st, name, init):
         n = norm_local(name)
+        if n in ("__RVAL__", "__EGrval__") and "__EGrval__" in self.names:
+            n = "__EGrval__"
         if n not in self.names:
             return None
         if init is None:
